@@ -575,6 +575,13 @@ class Engine:
         if isinstance(node, ast.FunctionDef):
             st.env[node.name] = FunV(node, st.env)
             return [("fall", st, None)]
+        if isinstance(node, ast.Try):
+            if node.finalbody or node.orelse:
+                raise Unsupported("try with else/finally")
+            outs = self.exec_block(node.body, st)
+            if any(kind == "raise" for kind, _s, _v in outs):
+                raise Unsupported("exception raised inside a try body (handlers are not modelled)")
+            return outs
         raise Unsupported(f"statement {type(node).__name__}")
 
     def do_yield(self, node, st):
@@ -1304,7 +1311,16 @@ class Engine:
                 del eng.obls[mark:]  # already emitted for the arbitrary index
                 return v
 
-            return SeqV(seq.n, at, kind, {"captures": captures} if kind == "gen" else None)
+            meta = {"captures": captures} if kind == "gen" else {}
+            arg = getattr(src, "argsort", None)
+            if arg is not None and isinstance(elt, ast.Name) and isinstance(g.target, ast.Tuple) and isinstance(g.target.elts[0], ast.Name) \
+                    and g.target.elts[0].id == elt.id and arg[2].meta.get("enumerate_start") == 0:
+                # rule ARGSORT-PROJECTION: the first components of a stably sorted enumerate(...) are
+                # sigma(0..n-1), a permutation of range(n) whose inverse is the ghost tau
+                tau = arg[1]
+                meta["ginv"] = lambda v, tau=tau: IntV(tau(Z(v)))
+                self.rules_used.add("argsort-projection")
+            return SeqV(seq.n, at, kind, meta)
         # filtered: prefix-count characterisation
         out = self.filtered(seq, g, elt, st, kind, elem_state)
         if kind == "gen":
